@@ -17,7 +17,6 @@
 #include <atomic>
 #include <chrono>
 #include <condition_variable>
-#include <dirent.h>
 #include <dlfcn.h>
 #include <functional>
 #include <map>
@@ -25,6 +24,9 @@
 #include <mutex>
 #include <thread>
 #include <time.h>
+#include <pthread.h>
+#include <sys/syscall.h>
+#include <unistd.h>
 #include <vector>
 #include <ompl/util/Console.h>
 #include <ompl/util/Time.h>
@@ -48,10 +50,25 @@ using PTC = ob::PlannerTerminationCondition;
 static const long long FAKE_BASE = 1000000000000000LL;  // ns
 static std::atomic<long long> fakeNs{-1};               // < 0: real clock
 
+// While a probe window is open the interposer counts who reads CLOCK_REALTIME: the thread that opened
+// the window (an evaluation of the *direct* timed form calls time::now() on the caller's thread) or
+// another thread (the poller of the *periodic* form).  Structural, not timing: see the `solve` op.
+static std::atomic<int> probeOpen{0};
+static pthread_t probeMain;
+static std::atomic<long> probeMainReads{0};
+static std::atomic<long> probeForeignReads{0};
+
 extern "C" int clock_gettime(clockid_t id, struct timespec *ts) noexcept
 {
     using fn_t = int (*)(clockid_t, struct timespec *);
     static fn_t real = (fn_t)dlsym(RTLD_NEXT, "clock_gettime");
+    if (id == CLOCK_REALTIME && probeOpen.load())
+    {
+        if (pthread_equal(pthread_self(), probeMain))
+            ++probeMainReads;
+        else
+            ++probeForeignReads;
+    }
     long long f = fakeNs.load();
     if (id == CLOCK_REALTIME && f >= 0)
     {
@@ -77,6 +94,7 @@ struct LeafScript
     long long gateAt = -1;
     bool gateVerdict = false;
     bool inside = false, open = false, returned = false;
+    long gateTid = 0;   // kernel thread id of the thread that entered the gate
     bool invoke()
     {
         std::unique_lock<std::mutex> g(m);
@@ -84,6 +102,7 @@ struct LeafScript
         if (gateAt >= 0 && k == (size_t)gateAt)
         {
             inside = true;
+            gateTid = (long)syscall(SYS_gettid);
             cv.notify_all();
             cv.wait(g, [this] { return open; });
             gateAt = -1;
@@ -134,33 +153,56 @@ static bool mirrorSelfTest()
     return ok;
 }
 
-static int countThreads()
+static bool threadAlive(long tid)
 {
-    int n = 0;
-    if (DIR *d = opendir("/proc/self/task"))
-    {
-        while (dirent *e = readdir(d))
-            if (e->d_name[0] != '.')
-                ++n;
-        closedir(d);
-    }
-    return n;
+    return access(("/proc/self/task/" + std::to_string(tid)).c_str(), F_OK) == 0;
 }
 
+// Planner::solve(double) hands its termination condition to solve(const PTC &): the probe records what it
+// was handed.  Which form it is, is observed by *who reads the clock* when the condition is evaluated
+// (the condition's predicate is `time::now() > endTime`): N evaluations on this thread cause exactly N
+// clock reads on this thread in the direct form and none in the periodic form, whose reads come from its
+// poller thread (waited for with a bounded event wait).  No thread counting, no timing.
 class ProbePlanner : public ob::Planner
 {
 public:
-    ProbePlanner(const ob::SpaceInformationPtr &si) : ob::Planner(si, "probe") {}
+    static const int N = 3;
+    ProbePlanner(const ob::SpaceInformationPtr &si, bool mirrorOk) : ob::Planner(si, "probe"), mirrorOk_(mirrorOk) {}
     using ob::Planner::solve;
     ob::PlannerStatus solve(const PTC &ptc) override
     {
-        threadsInside = countThreads();
-        period = mirror(ptc)->period_;
-        hasThread = mirror(ptc)->thread_ != nullptr;
+        if (mirrorOk_)
+        {
+            period = mirror(ptc)->period_;
+            hasThread = mirror(ptc)->thread_ != nullptr;
+        }
+        probeMain = pthread_self();
+        probeMainReads = 0;
+        probeForeignReads = 0;
+        probeOpen = 1;
         value = ptc();
+        for (int i = 1; i < N; ++i)
+            (void)ptc();
+        long mainReads = probeMainReads.load();
+        if (mainReads == N)
+            form = 0;   // every evaluation ran the predicate on the caller's thread
+        else if (mainReads == 0)
+        {
+            // nothing ran here: the periodic form.  Corroborate: its poller reads the clock from another thread
+            auto t0 = std::chrono::steady_clock::now();
+            while (probeForeignReads.load() == 0 && std::chrono::steady_clock::now() - t0 < std::chrono::seconds(10))
+                std::this_thread::sleep_for(std::chrono::microseconds(200));
+            form = probeForeignReads.load() > 0 ? 1 : -1;
+        }
+        else
+            form = -1;
+        probeOpen = 0;
+        if (mirrorOk_ && form >= 0 && (form == 1) != hasThread)
+            form = -1;   // the two structural observations disagree: no verdict (never a failing answer)
         return ob::PlannerStatus::TIMEOUT;
     }
-    int threadsInside = 0;
+    bool mirrorOk_;
+    int form = -1;   // 0 direct, 1 periodic, -1 not conclusive
     double period = 0;
     bool hasThread = false;
     bool value = false;
@@ -231,7 +273,7 @@ int main()
     ob::ProblemDefinitionPtr pdef = std::make_shared<ob::ProblemDefinition>(si);
     std::map<std::string, PTC> names;
     std::map<std::string, ob::IterationTerminationCondition> itcs;
-    int threadsAtAwait = 0;
+    long awaitedTid = 0;   // kernel thread id of the poller found inside the gate by the last `await`
 
     auto snapshot = [&]() {
         std::map<size_t, size_t> m;
@@ -503,8 +545,8 @@ int main()
             auto l = leafOf(*vp::parseNat(t[1]));
             std::unique_lock<std::mutex> g(l->m);
             bool ok = l->cv.wait_for(g, std::chrono::seconds(10), [&] { return l->inside; });
+            awaitedTid = ok ? l->gateTid : 0;
             g.unlock();
-            threadsAtAwait = countThreads();
             std::cout << (ok ? "ok" : "timeout") << "\n";
         }
         else if (op == "release" && t.size() == 2 && vp::parseNat(t[1]))
@@ -519,13 +561,14 @@ int main()
         }
         else if (op == "settle" && t.size() == 1)
         {
-            // until the poller thread that was inside the gate at `await` has left its loop and exited
-            // (it stores its result, sees terminate_ and returns): observed as the thread count dropping
+            // until the poller thread that was inside the gate at `await` has left its loop and exited (it stores
+            // its result, sees terminate_ and returns): its own /proc/self/task/<tid> entry disappears.  Bounded
+            // event wait on that one thread; other threads coming and going do not matter.
             bool ok = false;
             auto t0 = std::chrono::steady_clock::now();
-            while (std::chrono::steady_clock::now() - t0 < std::chrono::seconds(10))
+            while (awaitedTid > 0 && std::chrono::steady_clock::now() - t0 < std::chrono::seconds(10))
             {
-                if (threadsAtAwait > 0 && countThreads() < threadsAtAwait) { ok = true; break; }
+                if (!threadAlive(awaitedTid)) { ok = true; break; }
                 std::this_thread::sleep_for(std::chrono::microseconds(200));
             }
             std::cout << (ok ? "ok" : "timeout") << "\n";
@@ -551,13 +594,11 @@ int main()
         }
         else if (op == "solve" && t.size() == 2 && vp::parseBits(t[1]))
         {
-            ProbePlanner p(si);
-            int before = countThreads();
+            ProbePlanner p(si, mirrorOk);
             static_cast<ob::Planner &>(p).solve(*vp::parseBits(t[1]));
-            bool polled = p.threadsInside == before + 1;
-            bool consistent = (p.threadsInside == before || polled) && (!mirrorOk || polled == p.hasThread);
-            std::cout << "polled=" << (consistent ? (polled ? "1" : "0") : "inconsistent")
-                      << " period=" << (mirrorOk ? vp::bits(p.period) : std::string("unobservable"))
+            // a field that could not be observed conclusively is `?` (no demand), never a wrong answer
+            std::cout << "polled=" << (p.form < 0 ? "?" : (p.form ? "1" : "0"))
+                      << " period=" << (mirrorOk ? vp::bits(p.period) : std::string("?"))
                       << " v=" << (p.value ? 1 : 0) << "\n";
         }
         else
